@@ -182,4 +182,13 @@ def coalescent(spec, **over):
     if 'regularize' in spec:
         kw['regularize'] = spec['regularize']
     kw.update(over)
-    return pg.Coalescent(**kw)
+    coal = pg.Coalescent(**kw)
+    if spec.get('late_events'):
+        # the user first LOOKS at the object (size of its state spaces: nothing is evaluated), THEN completes the demography it
+        # holds, THEN asks for statistics: they must describe the demography in force when they are asked for
+        coal.lineage_counting_state_space.k
+        if spec.get('late_touch_bc'):
+            coal.block_counting_state_space.k
+        for e in spec['late_events']:
+            coal.demography.add_event(event(e))
+    return coal
